@@ -176,6 +176,8 @@ def _shard(arg):
         scale = draw(st.sampled_from([1000, 1000, 1000, 10 ** 5, 10 ** 6, 10]))  # nm: ordinary, very small and large radii
         digits = {1000: 3, 10 ** 5: 5, 10 ** 6: 6, 10: 1}[scale]
         radii = [f"{v / scale:.{digits}f}" for v in np.cumsum(incs)]
+        if draw(st.integers(0, 2)) == 0:
+            radii = list(draw(st.permutations(radii)))   # a list may be written in any order
         cart = draw(st.booleans()) and n_o >= 3
         f = draw(st.sampled_from([1.0, 2.0, 2.0, 0.25, 0.5, 1.5, 3.0, 4.0, 0.7310585786, 1e-3, 1e-4, 1e3, 37.5]))
         f2 = draw(st.sampled_from([None, None, 1.0, 3.0, 0.125]))
@@ -193,6 +195,7 @@ def _shard(arg):
             res.case(sample=case, nontrivial=case["n_b"] >= 4 and case["n_o"] >= 4 and nt >= 2, key=case,
                      classes=[f"b={case['b_alg'] if case['n_b'] > 1 else 'zero4D'}", f"o={case['o_alg'] if case['n_o'] > 1 else 'zero3D'}",
                               "cartesian" if case["cartesian"] else "spherical", "f=1" if case["factor"] == 1 else "f!=1"]
+                     + (["radii_written_unsorted"] if case["radii"] != sorted(case["radii"], key=float) else [])
                      + (["more_than_500_position_cells"] if case["n_o"] * nt > 500 else []))
             rest = []
             for tag, msg in found:
